@@ -14,7 +14,9 @@ package snap
 
 import (
 	"bytes"
+	"errors"
 	"fmt"
+	"runtime/debug"
 	"sort"
 	"strings"
 	"sync"
@@ -696,6 +698,8 @@ type c47Case struct {
 	Plan   []c47Dev `json:"plan"`
 }
 
+var errC47Panic = errors.New("panic inside Sync")
+
 // c47Opts describes one sync cycle.
 type c47Opts struct {
 	plan        []c47Dev
@@ -728,7 +732,14 @@ func c47Cycle(t *testing.T, kv ethdb.KeyValueStore, st *c47State, o c47Opts) c47
 	run.syncer.Register(run.newPeer("A", true))
 
 	result := make(chan error, 1)
-	go func() { result <- run.syncer.Sync(st.root, cancel) }()
+	go func() {
+		defer func() {
+			if p := recover(); p != nil {
+				result <- fmt.Errorf("%w: %v\n%s", errC47Panic, p, debug.Stack())
+			}
+		}()
+		result <- run.syncer.Sync(st.root, cancel)
+	}()
 	var res c47CycleResult
 	select {
 	case res.err = <-result:
@@ -737,7 +748,9 @@ func c47Cycle(t *testing.T, kv ethdb.KeyValueStore, st *c47State, o c47Opts) c47
 		run.term()
 		res.err = <-result
 	}
-	// quiescence: every handler goroutine spawned by the test peers has finished
+	// Sync is over (returned, was cancelled or panicked): release every answer still parked on the
+	// syncer's delivery channels, then wait until all handler goroutines of the test peers have finished.
+	run.term()
 	for {
 		var started int64
 		run.mu.Lock()
@@ -774,6 +787,9 @@ func c47Execute(t *testing.T, st *c47State, plan []c47Dev) (string, []string, ma
 	}
 	if res.stalled {
 		return "stalled", applied, counts, c47CheckGenuine(db, st)
+	}
+	if errors.Is(res.err, errC47Panic) {
+		return "", applied, counts, res.err
 	}
 	if res.err != nil {
 		if verr := c47CheckGenuine(db, st); verr != nil {
